@@ -17,8 +17,9 @@ OnOut(M, e) ==
        ELSE V(M, IF M.last[e.c] = "ans" THEN "answer_without_request:after_received_answer"
                  ELSE "answer_without_request:no_matching_request")
   ELSE M
-Step(M, st) ==
+StepN(M, st) ==
   LET M0 == [M EXCEPT !.i = @ + 1]
       M1 == IF IsFeed(st) THEN FoldLeft(LAMBDA acc, m : FeedMsg(acc, st.act.c, m), M0, st.act.ms) ELSE M0
   IN FoldLeft(OnOut, M1, st.out)
+Step(M, s0) == StepN(M, Norm(s0))
 =============================================================================
